@@ -341,11 +341,11 @@ func ZZ_C14_Registry() {
 }
 
 // ZZ_C14_Unknown: errors that are not chord errors stay non-retryable: a foreign error with an arbitrary message,
-// a message one byte away from a defined (retryable) error's message, and a defined message with a prefix or suffix.
+// a message one byte away from a defined error's message, and a defined message with a prefix or a one-byte prefix/suffix.
 func ZZ_C14_Unknown() {
 	reg := zzRegistry()
 	var msg string
-	switch rt.Choose("shape", 4) {
+	switch rt.Choose("shape", 5) {
 	case 0: // arbitrary short message
 		b := rt.Bytes("msg", rt.Bound("msglen"))
 		for _, c := range b {
@@ -364,9 +364,16 @@ func ZZ_C14_Unknown() {
 	case 2: // a defined message with something in front (what wrapping with a prefix produces as text)
 		msg = "storing KV to successor: " + reg[rt.Choose("near", len(reg))].Error()
 		rt.Reach("prefixed-message")
-	case 3:
-		msg = reg[rt.Choose("near", len(reg))].Error() + "."
+	case 3: // a defined message followed by one arbitrary byte (a full stop, a space, ...)
+		c := rt.U8("byte")
+		rt.Assume(zzJSONPlain(c))
+		msg = reg[rt.Choose("near", len(reg))].Error() + string([]byte{c})
 		rt.Reach("suffixed-message")
+	case 4: // ... or preceded by one
+		c := rt.U8("byte")
+		rt.Assume(zzJSONPlain(c))
+		msg = string([]byte{c}) + reg[rt.Choose("near", len(reg))].Error()
+		rt.Reach("one-byte-prefixed-message")
 	}
 	orig := errors.New(msg)
 	kind := zzSomeKind()
